@@ -1,5 +1,5 @@
 (* C01 — select() returns exactly the elements CSS semantics designate.  Statements only. *)
-From SV Require Import Base Regex Tree IR Lit Inputs Match MatchFacts.
+From SV Require Import Base Regex Tree IR Lit Inputs Match MatchFacts FuelFacts.
 
 (* The document object itself is never an element: asking whether it matches is always False. *)
 Theorem C01_document_is_not_an_element : forall bidi cx fuel e sels p m,
@@ -11,3 +11,11 @@ Theorem C01_only_elements_match : forall bidi cx fuel e sels p m,
   is_tag_path (c_tree cx) p = false -> match_el bidi cx fuel e sels p m = Ok (false, m).
 Proof. exact match_el_not_tag. Qed.
 Print Assumptions C01_only_elements_match.
+
+(* The recursion fuel of the model is an artefact: once the matcher produces an answer (a value or a Python
+   exception), any additional fuel produces the same answer - so "the model's answer" is well defined. *)
+Theorem C01_fuel_irrelevant : forall bidi cx fuel k e p l m,
+  match_selectors bidi cx fuel e p l m <> Raise OutOfFuel ->
+  match_selectors bidi cx (fuel + k) e p l m = match_selectors bidi cx fuel e p l m.
+Proof. exact fuel_irrelevant. Qed.
+Print Assumptions C01_fuel_irrelevant.
